@@ -744,6 +744,24 @@ func (g *gen) specCall(e *env, n *ast.CallExpr, want string, c *Clause) T {
 		ry := sx("select", sx("select", hx, sx("s.reg", y.S)), j)
 		q := fmt.Sprintf("(forall ((%s %s)) (! (=> %s (= %s %s)) :pattern (%s)))", j, g.idx, g.idxLt(j, end), rx, ry, rx)
 		return T{S: and(sx("=", sx("s.off", x.S), sx("s.off", y.S)), g.idxLe(sx("s.len", y.S), sx("s.len", x.S)), q), Sort: sBool}
+	case "callarg":
+		// callarg(callee, ordinal, index): the index-th actual argument (receiver first) of that call
+		if len(n.Args) != 3 {
+			return fail("callarg(callee, ordinal, index)")
+		}
+		cn := exprString(n.Args[0])
+		ov, ok1 := g.constExpr(n.Args[1])
+		iv, ok2 := g.constExpr(n.Args[2])
+		if !ok1 || !ok2 {
+			return fail("callarg needs constant ordinal and index")
+		}
+		o, _ := constant.Int64Val(ov)
+		i, _ := constant.Int64Val(iv)
+		as, ok := g.callArgsRec[fmt.Sprintf("%s#%d", cn, o)]
+		if !ok || int(i) >= len(as) {
+			return fail("no recorded argument %d of call#%d %s at this point", i, o, cn)
+		}
+		return as[i]
 	case "res":
 		// res(callee, ordinal, index): the index-th result of the ordinal-th call of callee so far
 		if len(n.Args) != 3 {
